@@ -67,6 +67,7 @@ func checkC16(c *Ctx) {
 	c.rule("C16.R5", "indices into the argument and converter slices are entailed by the length guards / filled by the identical counted loop; converters test the alternative before dereferencing it", 12)
 	c.rule("C16.R6", "the bridging closure is returned only on paths where the output gate and the input-converter construction both succeeded", 2)
 	c.rule("C16.R8", "registration reaches the table: every public function-registration call that returns without error has stored the (converted) function once in the dispatch table under the given name; nothing is stored when it fails", 2)
+	c.rule("C16.R9", "a nil function value is refused: each bridge constructor returns its closure only under a failed reflect.ValueOf(<argument>).IsNil() test (a typed nil has a non-nil Func type and passes the type gate; reflect.Value.Call panics on it)", 2)
 	c.rule("C16.R7", "reflect accessors with kind preconditions are entailed by the matching Can*/Kind test, or by a return signature the gate grants only to such kinds", 4)
 	p := w.Pkg("")
 	info := p.TypesInfo
@@ -100,6 +101,7 @@ func checkC16(c *Ctx) {
 	c16Converters(c)
 	c16KindTables(c, ctors)
 	c16Accessors(c, ctors)
+	c16ChanAgreement(c, ctors)
 	_ = info
 }
 
@@ -218,6 +220,37 @@ func c16Ctor(c *Ctx, ctor *Func) {
 	if nRet == 0 {
 		c.ob("C16.R6", ctor.Name+"/closure-after-gates", w.Pos(ctor.Decl.Pos()), false, "the constructor returns no bridging closure")
 	}
+	// ----- R9: a nil function value (a typed nil: var f func(int) int) has a non-nil Func type; calling it panics
+	valueOf := "reflect.ValueOf(" + param + ")"
+	var isNilCalls []*ast.CallExpr
+	walkNoLit(ctor.Body, func(n ast.Node) bool {
+		if call, ok := n.(*ast.CallExpr); ok && len(call.Args) == 0 {
+			if sel, ok := unparen(call.Fun).(*ast.SelectorExpr); ok && sel.Sel.Name == "IsNil" && x.str(sel.X) == valueOf {
+				isNilCalls = append(isNilCalls, call)
+			}
+		}
+		return true
+	})
+	walkNoLit(ctor.Body, func(n ast.Node) bool {
+		ret, ok := n.(*ast.ReturnStmt)
+		if !ok || len(ret.Results) != 2 {
+			return true
+		}
+		if _, isLit := unparen(ret.Results[0]).(*ast.FuncLit); !isLit {
+			return true
+		}
+		okNil, how := false, "the constructor never tests reflect.ValueOf("+param[1:]+").IsNil()"
+		at := site{pos: ret.Pos(), anc: ret}
+		for _, call := range isNilCalls {
+			if ok, h := e.Prove(ret, Not{e.cond(keyCtx{e: e, s: &at}, call, 0)}); ok {
+				okNil, how = true, h
+			} else {
+				how = h
+			}
+		}
+		c.ob("C16.R9", ctor.Name+"/nil-function-value-refused", w.Pos(ret.Pos()), okNil, map[bool]string{true: "the bridging closure is returned only for a function value that is not nil (" + how + ")", false: "the bridging closure can be returned for a nil function value (var f func(int) int has a non-nil Func type): the registration succeeds and every script-side call panics in reflect.Value.Call: " + how}[okNil])
+		return true
+	})
 	// ----- R4: outputParameters[k]
 	gate, sigObj := gateOf(w, ctor)
 	if gate == nil {
@@ -1268,6 +1301,39 @@ func c16Accessors(c *Ctx, ctors []*Func) {
 							proved, how = true, "inside case "+strings.Join(names, ", ")+" of switch "+recv+".Kind(): every listed kind satisfies "+need
 						}
 					}
+				}
+			}
+			// IsNil on reflect.ValueOf(p) under an entailed reflect.TypeOf(p).Kind() == <nillable kind>: the value's kind is its type's kind
+			if !proved && need == "nillable" {
+				fx := w.expander(f)
+				rs := fx.str(sel.X)
+				if strings.HasPrefix(rs, "reflect.ValueOf(") && strings.HasSuffix(rs, ")") {
+					wantType := "reflect.TypeOf(" + strings.TrimSuffix(strings.TrimPrefix(rs, "reflect.ValueOf("), ")") + ")"
+					walkNoLit(f.Body, func(g ast.Node) bool {
+						b, ok := g.(*ast.BinaryExpr)
+						if !ok || proved || (b.Op != token.EQL && b.Op != token.NEQ) {
+							return true
+						}
+						gc, ok := unparen(b.X).(*ast.CallExpr)
+						if !ok {
+							return true
+						}
+						gs, ok := unparen(gc.Fun).(*ast.SelectorExpr)
+						if !ok || gs.Sel.Name != "Kind" || fx.str(gs.X) != wantType {
+							return true
+						}
+						switch k := reflectKindName(info, b.Y); k {
+						case "Func", "Chan", "Map", "Pointer", "Ptr", "Interface", "Slice", "UnsafePointer":
+							goal := e.cond(kc, b, 0)
+							if b.Op == token.NEQ {
+								goal = Not{goal}
+							}
+							if ok, h := e.Prove(call, goal); ok {
+								proved, how = true, "entailed: the argument's type has kind "+k+" ("+h+"), and reflect.ValueOf(v).Kind() is reflect.TypeOf(v).Kind()"
+							}
+						}
+						return true
+					})
 				}
 			}
 			// IsNil on a call result under the channel-returning signature
